@@ -58,6 +58,20 @@ def _resolved_alias(p: G.Program, name: str) -> str:
     return r.name
 
 
+def _denoted(literal: str):
+    """The text a registered string constant (a double-quoted source literal) denotes."""
+    import ast
+
+    try:
+        v = ast.literal_eval(literal)
+        return v if isinstance(v, str) and literal.startswith('"') else ("<not a string literal>", literal)
+    except Exception:  # noqa
+        return ("<not a literal>", literal)
+
+
+ALLOW = ("alias-of-imported-struct", "alias-of-imported-struct-field", "struct-contains-message", "string-special", "prefix-names")
+
+
 def check_free(p: G.Program, res: Result = None):
     trace = {"mode": "free", "program": p.to_json()}
     out = G.parse_program(p)
@@ -85,8 +99,8 @@ def check_free(p: G.Program, res: Result = None):
                             f"missing {missing[:4]}, unexpected {extra[:4]}, different value {[(k, got[k], want[k]) for k in diff[:3]]}", trace)
 
     cmp("constants", {n: c.value for n, c in ps.constants.items()}, exp["constants"], core["constants"] if core else ())
-    cmp("string_constants", {n: c.value for n, c in ps.string_constants.items()},
-        {n: f'"{v}"' for n, v in exp["string_constants"].items()}, core["string_constants"] if core else ())
+    cmp("string_constants", {n: _denoted(c.value) for n, c in ps.string_constants.items()}, exp["string_constants"],
+        core["string_constants"] if core else ())
     cmp("aliases", {n: a.type_name for n, a in ps.aliases.items()}, {n: _resolved_alias(p, n) for n in exp["aliases"]},
         core["aliases"] if core else ())
     cmp("host_ids", {n: h.value for n, h in ps.host_ids.items()}, exp["host_ids"], core["host_ids"] if core else ())
@@ -238,9 +252,9 @@ def shard(idx: int, nshards: int, seed: int, n_free: int, n_conf: int, n_cli: in
     run_table(idx, nshards, res)
     core_w = None  # drawn
     sb = G.ShrinkBudget(15)
-    hyp_run(sb.body(lambda p: check_free(p, res)), sb.wrap(G.programs(import_coredefs=core_w, max_files=6)), seed, n_free, res)
+    hyp_run(sb.body(lambda p: check_free(p, res)), sb.wrap(G.programs(import_coredefs=core_w, max_files=6, allow=ALLOW)), seed, n_free, res)
     sb = G.ShrinkBudget(15)
-    hyp_run(sb.body(lambda p: check_conflict(p, res)), sb.wrap(G.conflict_programs(import_coredefs=core_w)), seed + 1, n_conf, res)
+    hyp_run(sb.body(lambda p: check_conflict(p, res)), sb.wrap(G.conflict_programs(import_coredefs=core_w, allow=ALLOW)), seed + 1, n_conf, res)
     if n_cli:
         rnd = G.RandomChooser(seed + 2)
         for k in range(n_cli):
